@@ -72,21 +72,35 @@ def apply(fc):
     fc.contract('parse', within='trait AisMessageType', requires=['small(data@.len() as int)'])
     fc.contract('push_unwrap', ensures=['final(list)@ == old(list)@.push(item)'], tags=['C14'])
     fc.contract('unarmor', requires=['small(data@.len() as int)', 'fill_bits <= 5'], ensures=['unarmor_C03(data@, fill_bits as int, r)'], tags=['C03'])
-    fc.replace_in('unarmor', 'for byte in data {', '''for byte in it: data
+    # the loop proof names locals of unarmor; their names are read from the code so that renaming them is harmless
+    import re as _re
+    try:
+        body = fc.fn_text('unarmor')
+    except Exception:
+        body = ''
+    m_loop = _re.search(r'let mut (\w+) = 0;\s*for (\w+) in data \{', body)
+    m_out = _re.search(r'let mut (\w+) = vec!\[0; (\w+)\];', body)
+    m_bits = _re.search(r'let (\w+) = data\.len\(\) \* 6;', body)
+    if m_loop and m_out and m_bits:
+        off, byte = m_loop.group(1), m_loop.group(2)
+        out, bc = m_out.group(1), m_out.group(2)
+        bits = m_bits.group(1)
+        fc.replace_in_re('unarmor', r'for %s in data \{' % byte, '''for %(byte)s in it: data
         invariant
-            offset == 6 * it.index@,
-            output.len() == byte_count,
-            bit_count == data.len() * 6,
-            byte_count == (bit_count / 8) + if bit_count % 8 != 0 { 1int } else { 0int },
+            %(off)s == 6 * it.index@,
+            %(out)s.len() == %(bc)s,
+            %(bits)s == data.len() * 6,
+            %(bc)s == (%(bits)s / 8) + if %(bits)s %% 8 != 0 { 1int } else { 0int },
             it.index@ <= data.len(),
             small(data@.len() as int),
             forall|j: int| 0 <= j < it.index@ ==> sixbit(#[trigger] data@[j]) is Some,
-            packed(output@, data@, 6 * it.index@),
+            packed(%(out)s@, data@, 6 * it.index@),
     {
-        let ghost out0 = output@;
-        let ghost idx = offset as int / 6;
-''', kind='loop')
-    fc.insert_before('unarmor', 'let mut offset = 0;', 'proof { lemma_zero_packed(output@, data@); }\n    ')
-    fc.insert_before('unarmor', 'if fill_bits != 0 && byte_count != 0 {', 'let ghost out_pre = output@;\n    ')
-    fc.insert_before('unarmor', 'Ok(output)', 'proof { if fill_bits != 0 && byte_count != 0 { lemma_unarmor_mask_imp(out_pre, output@, data@, fill_bits as int); } }\n    ')
-    fc.insert_before('unarmor', 'offset += 6;', 'proof { lemma_unarmor_step_imp(out0, output@, data@, idx, sv(*byte)); }\n        ')
+        let ghost out0 = %(out)s@;
+        let ghost idx = %(off)s as int / 6;''' % dict(off=off, byte=byte, out=out, bc=bc, bits=bits), kind='loop')
+        fc.insert_re('unarmor', r'let mut %s = 0;' % off, 'proof { lemma_zero_packed(%s@, data@); }\n    ' % out)
+        fc.insert_re('unarmor', r'if fill_bits != 0 && %s != 0 \{' % bc, 'let ghost out_pre = %s@;\n    ' % out)
+        fc.insert_re('unarmor', r'Ok\(%s\)' % out, 'proof { if fill_bits != 0 && %s != 0 { lemma_unarmor_mask_imp(out_pre, %s@, data@, fill_bits as int); } }\n    ' % (bc, out))
+        fc.insert_re('unarmor', r'%s \+= 6;' % off, 'proof { lemma_unarmor_step_imp(out0, %s@, data@, idx, sv(*%s)); }\n        ' % (out, byte))
+    else:
+        fc.lost.append(dict(q='messages/mod.rs::unarmor', relpath='messages/mod.rs', within=None, name='unarmor', tags=['C03'], ensures=[], why='loop shape of unarmor not recognised'))
